@@ -211,6 +211,39 @@ def is_new_module_var(module, name):
     return module.name in mv and name not in mv[module.name]
 
 
+def _fold_int_binop(b):
+    """`0 + 1` is `1`: integer arithmetic on two literals folds (running counters, hoisted offsets)"""
+    if isinstance(b, ast.BinOp) and isinstance(b.left, ast.Constant) and isinstance(b.right, ast.Constant) \
+            and type(b.left.value) is int and type(b.right.value) is int and isinstance(b.op, (ast.Add, ast.Sub, ast.Mult)):
+        v = {ast.Add: b.left.value + b.right.value, ast.Sub: b.left.value - b.right.value, ast.Mult: b.left.value * b.right.value}[type(b.op)]
+        if v >= 0:
+            return ast.Constant(value=v)
+    return b
+
+
+_CONST_FUNCS = {'ord', 'chr', 'len', 'frozenset', 'tuple', 'int', 'float', 'str', 'abs', 'min', 'max'}
+
+
+def _is_constant_expr(v, depth=0):
+    """an immutable value computed from literals by total builtins (hoisted `ord('A')`, `26 * 26`, `frozenset('abc')`)"""
+    if depth > 5:
+        return False
+    if isinstance(v, ast.Constant):
+        return not isinstance(v.value, bytes)
+    if isinstance(v, ast.UnaryOp) and isinstance(v.op, (ast.USub, ast.UAdd)):
+        return _is_constant_expr(v.operand, depth + 1)
+    if isinstance(v, ast.BinOp) and isinstance(v.op, (ast.Add, ast.Sub, ast.Mult)):
+        return _is_constant_expr(v.left, depth + 1) and _is_constant_expr(v.right, depth + 1)
+    if isinstance(v, ast.Tuple):
+        return all(_is_constant_expr(x, depth + 1) for x in v.elts)
+    if isinstance(v, ast.Attribute) and isinstance(v.value, ast.Constant) and isinstance(v.value.value, str) and v.attr in ('format', 'join', 'format_map'):
+        return True         # a bound method of a literal: FMT = '{:0.4f}'.format
+    if isinstance(v, ast.Call) and isinstance(v.func, ast.Name) and v.func.id in _CONST_FUNCS and not v.keywords and 1 <= len(v.args) <= 2:
+        return all(_is_constant_expr(x, depth + 1) or (isinstance(x, (ast.List, ast.Set)) and v.func.id in ('frozenset', 'tuple') and all(_is_constant_expr(y, depth + 2) for y in x.elts))
+                   for x in v.args)
+    return False
+
+
 def _literal_elts(itsym, depth=0):
     """The elements an iteration over `itsym` yields, when they are all known: a tuple / list display, the value of a filtered
     comprehension on this path, a local bound to one of those, and enumerate / reversed / list / tuple of such."""
@@ -226,6 +259,24 @@ def _literal_elts(itsym, depth=0):
         if isinstance(itsym._origin, ast.List) and not itsym._origin.elts:
             return []           # a local list followed element by element that is (still) empty
         return _literal_elts(itsym._origin, depth + 1)
+    if isinstance(itsym, ast.Subscript) and isinstance(itsym.slice, ast.Slice):
+        # a constant slice of a list known element by element: X[-1:], X[:1], X[1:3]
+        inner = _literal_elts(itsym.value, depth + 1)
+        if inner is not None:
+            bounds = []
+            for b_ in (itsym.slice.lower, itsym.slice.upper, itsym.slice.step):
+                if b_ is None:
+                    bounds.append(None)
+                elif isinstance(b_, ast.Constant) and isinstance(b_.value, int) and not isinstance(b_.value, bool):
+                    bounds.append(b_.value)
+                elif isinstance(b_, ast.UnaryOp) and isinstance(b_.op, ast.USub) and isinstance(b_.operand, ast.Constant) and isinstance(b_.operand.value, int):
+                    bounds.append(-b_.operand.value)
+                else:
+                    return None
+            if bounds[2] == 0:
+                return None
+            return inner[slice(*bounds)]
+        return None
     if isinstance(itsym, ast.Call) and isinstance(itsym.func, ast.Name) and not itsym.keywords:
         if itsym.func.id == 'enumerate' and 1 <= len(itsym.args) <= 2:
             inner = _literal_elts(itsym.args[0], depth + 1)
@@ -343,9 +394,11 @@ def const_value(n):
 class PathSim:
     def __init__(self, repo, func, inline=(), may_raise=None, unroll=2, asserts='ignore', oracle=None,
                  fork_ifexp=True, inline_depth=3, max_paths=MAX_PATHS, while_unroll=None, track_frames=False,
-                 bool_returns=False):
+                 bool_returns=False, expand_maps=False, stable_attrs=()):
         self.repo = repo
         self.func = func
+        self.expand_maps = expand_maps          # [f(x) for x in X] without a filter is expanded element by element too
+        self.stable_attrs = frozenset(stable_attrs)     # heap paths (texts) assumed not to be written by the opaque calls of this function
         self.cg = repo.callgraph()
         self.inline = set(inline)
         self.may_raise = may_raise
@@ -362,6 +415,14 @@ class PathSim:
         self._synth_loops = {}
         self._count = 0
         self._fresh = 0
+
+    def _clear_heap(self, st):
+        if self.stable_attrs:
+            keep = {k: v for k, v in st.heap.items() if k in self.stable_attrs}
+            st.heap.clear()
+            st.heap.update(keep)
+        else:
+            st.heap.clear()
 
     # ------------------------------------------------------------------------------------------
     def run(self):
@@ -461,7 +522,7 @@ class PathSim:
                     if sig2 is not None:
                         out.append((s2, sig2))
                         continue
-                    newv = ast.BinOp(left=cur, op=stmt.op, right=sym)
+                    newv = _fold_int_binop(ast.BinOp(left=cur, op=stmt.op, right=sym))
                     s2.events.append(Event('aug', stmt, f, text=norm(stmt), target=self._subst_target(stmt.target, s2, frame),
                                            value=sym, ep=s2.ep, loops=s2.loops, extra=type(stmt.op).__name__))
                     if isinstance(stmt.target, ast.Name) and isinstance(stmt.op, ast.Add):
@@ -594,7 +655,7 @@ class PathSim:
         if isinstance(stmt, ast.Delete):
             for t in stmt.targets:
                 st.ep += 1
-                st.heap.clear()
+                self._clear_heap(st)
                 st.events.append(Event('del', stmt, f, text=norm(stmt), target=self._subst_target(t, st, frame),
                                        ep=st.ep, loops=st.loops))
             return [(st, None)]
@@ -950,7 +1011,7 @@ class PathSim:
                     tsym = ast.Subscript(value=acc[0], slice=sl, ctx=ast.Load())
                 ttext = norm(tsym)
                 s.ep += 1
-                s.heap.clear()
+                self._clear_heap(s)
                 s.heap[ttext] = sym
                 if isinstance(sym, ast.Name) and getattr(sym, '_origin', None) is not None:
                     # a local that holds a fresh container now also lives at this heap path: from here on the local
@@ -1026,6 +1087,11 @@ class PathSim:
             return [(e, st, None)]
         if isinstance(e, ast.Name):
             v = st.env.get((frame[1], e.id))
+            if self.stable_attrs and isinstance(v, (ast.Attribute, ast.Subscript)) and norm(v) in self.stable_attrs:
+                # the local is an alias of a heap path this analysis follows like a local: read the value held there
+                hv = st.heap.get(norm(v))
+                if hv is not None and (hasattr(hv, '_elts') or isinstance(hv, ast.List) or (isinstance(hv, ast.Name) and getattr(hv, '_origin', None) is not None)):
+                    return [(hv, st, None)]
             if v is not None and not _is_mutable_display(v):
                 return [(v, st, None)]
             if v is None:
@@ -1086,9 +1152,12 @@ class PathSim:
             return self._ev_next_first(e, st, frame)
         if isinstance(e, ast.Call):
             return self.ev_call(e, st, frame)
-        if isinstance(e, ast.ListComp) and len(e.generators) == 1 and e.generators[0].ifs and not e.generators[0].is_async \
+        if isinstance(e, (ast.ListComp, ast.GeneratorExp)) and len(e.generators) == 1 and not e.generators[0].is_async \
                 and (isinstance(e.generators[0].target, ast.Name) or (isinstance(e.generators[0].target, ast.Tuple)
-                                                                      and all(isinstance(x, ast.Name) for x in e.generators[0].target.elts))):
+                                                                      and all(isinstance(x, ast.Name) for x in e.generators[0].target.elts))) \
+                and (e.generators[0].ifs or self._iter_known_from_comp(e.generators[0].iter, st, frame) or (self.expand_maps and isinstance(e, ast.ListComp))):
+            # a filtered comprehension / generator expression, or one that consumes the value of such a comprehension: the loop it abbreviates.
+            # (A generator expression is run where it is written; its laziness is not modelled - the pipelines it is used for are pure.)
             return self._ev_filtered_comp(e, st, frame)
         if isinstance(e, (ast.Lambda, ast.ListComp, ast.SetComp, ast.DictComp, ast.GeneratorExp)):
             sym = self.subst(e, st, frame)
@@ -1118,7 +1187,7 @@ class PathSim:
                     inl = g is not None and (g in self.inline or (self.auto_inline and is_new_function(g))) and frame[2] < self.inline_depth
                     if not inl:
                         s.ep += 1
-                        s.heap.clear()
+                        self._clear_heap(s)
                     sym._ep = s.ep
                     s.events.append(Event('call', e, frame[0], text=norm(sym), ftext=norm(sym), args=[], kwargs={}, recv=b,
                                           targets=targets, ep=s.ep, loops=s.loops, site=psite, extra='property'))
@@ -1128,7 +1197,7 @@ class PathSim:
                         out.append((sym, s, None))
                     continue
                 hv = s.heap.get(norm(sym))
-                if hv is not None and not _is_mutable_display(hv):
+                if hv is not None and (not _is_mutable_display(hv) or (norm(sym) in self.stable_attrs and (hasattr(hv, '_elts') or isinstance(hv, ast.List)))):
                     out.append((hv, s, None))
                 else:
                     sym._ep = s.ep
@@ -1235,7 +1304,7 @@ class PathSim:
                 new = type(e)()
                 for k, v in acc.items():
                     setattr(new, k, v)
-                out.append((new, s, None))
+                out.append((_fold_int_binop(new), s, None))
         return out
 
     def _is_boolish(self, f, e):
@@ -1259,10 +1328,12 @@ class PathSim:
                 return v            # a negative number: `-1` is written as a unary minus on a literal
             if isinstance(v, (ast.Tuple,)) and all(isinstance(x, ast.Constant) for x in v.elts):
                 return v
+            if _is_constant_expr(v):
+                return v            # e.g. ord('A'), 26 * 26, frozenset('abc'): the same term the inline spelling would give
         return None
 
-    def _is_pure_call(self, e, site):
-        fn = e.func
+    def _is_pure_call(self, e, site, fn=None):
+        fn = fn if fn is not None else e.func
         if isinstance(fn, ast.Name) and fn.id in PURE_BUILTINS and (site is None or site.kind == 'builtin'):
             return True
         if isinstance(fn, ast.Attribute) and fn.attr in PURE_METHODS and (site is None or site.kind in ('builtin', 'ext')):
@@ -1275,6 +1346,12 @@ class PathSim:
         site = self.cg.site_of(f, e)
         # evaluate callee receiver, then args
         fn = e.func
+        if isinstance(fn, ast.Name):
+            held = st.env.get((frame[1], fn.id))
+            if isinstance(held, ast.Attribute) and not isinstance(held.value, ast.Constant):
+                # a local bound to a bound method (`append = acc.append` hoisted out of a loop): the call is the method call on that receiver
+                fn = ast.Attribute(value=held.value, attr=held.attr, ctx=ast.Load())
+                fn.lineno, fn.col_offset = getattr(e, 'lineno', 0), getattr(e, 'col_offset', 0)
         if isinstance(fn, ast.Attribute):
             frs = []
             for b, s, sig in self.ev(fn.value, st, frame):
@@ -1318,6 +1395,11 @@ class PathSim:
                     out.append((None, s2, sg))
                     continue
                 targets = tuple(self.cg.targets(site)) if site else ()
+                if isinstance(fn, ast.Name) and isinstance(fsym, ast.Name) and fsym.id != fn.id and (frame[1], fn.id) in s2.env:
+                    # a callable parameter / local that is bound, on this path, to a named function: that function is the callee
+                    r_ = self.repo.lookup(f.module, fsym.id)
+                    if r_ and r_[0] == 'func' and (not targets or r_[1] in targets):
+                        targets = (r_[1],)
                 if len(targets) == 1 and kw and not any(isinstance(a_, ast.Starred) for a_ in acc) and '**' not in kw:
                     g_ = targets[0]
                     ps_ = g_.params()
@@ -1334,14 +1416,14 @@ class PathSim:
                     if known is not None and (isinstance(acc[0], (ast.List, ast.Tuple)) or hasattr(acc[0], '_elts') or isinstance(acc[0], ast.Name)):
                         out.append((ast.Constant(value=len(known)), s2, None))      # the length of a list known element by element
                         continue
-                pure = self._is_pure_call(e, site)
+                pure = self._is_pure_call(e, site, fn)
                 g0 = next(iter(targets)) if len(targets) == 1 else None
                 will_inline = g0 is not None and (g0 in self.inline or (self.auto_inline and is_new_function(g0) and not any(isinstance(x, (ast.Yield, ast.YieldFrom)) for x in ast.walk(g0.node)))) \
                     and frame[2] < self.inline_depth and not g0.is_module_body
                 if not pure and not will_inline:
                     # an opaque call may change any heap location; an inlined call's effects are those of its body
                     s2.ep += 1
-                    s2.heap.clear()
+                    self._clear_heap(s2)
                 sym._ep = s2.ep
                 sym._site = site
                 evn = Event('call', e, f, text=norm(sym), ftext=norm(fsym), args=acc, kwargs=kw, recv=recv,
@@ -1362,6 +1444,10 @@ class PathSim:
                     cur_ = s2.env.get((frame[1], recv.id))
                     if isinstance(cur_, ast.List):
                         s2.env[(frame[1], recv.id)] = ast.List(elts=list(reversed(cur_.elts)), ctx=ast.Load())
+                if self.stable_attrs and isinstance(fn, ast.Attribute) and fn.attr in MUTATORS:
+                    for k_ in list(s2.heap):
+                        if k_ in self.stable_attrs and (norm(recv) == k_ or (isinstance(recv, ast.Name) and isinstance(s2.heap[k_], ast.Name) and s2.heap[k_].id == recv.id)):
+                            del s2.heap[k_]         # mutated through the path or through its alias: no longer known element by element
                 if isinstance(recv, ast.Name) and isinstance(fn, ast.Attribute) and fn.attr in MUTATORS and not (
                         (fn.attr in ('append', 'extend') and len(acc) == 1 and not kw and (fn.attr == 'append' or isinstance(acc[0], (ast.List, ast.Tuple)))) or
                         (fn.attr == 'reverse' and not acc and not kw)):
@@ -1489,6 +1575,22 @@ class PathSim:
             if isinstance(e.ops[0], ast.NotEq):
                 res = [(None if v is None else (not v), s_, sg_) for v, s_, sg_ in res]
             return res
+        if isinstance(e, ast.Compare) and len(e.ops) == 1 and isinstance(e.ops[0], (ast.In, ast.NotIn)) and not any(isinstance(x, ast.Call) for x in ast.walk(e.left)):
+            # `x in ('a', 'b')` - the display written out or a module-level constant - is `x == 'a' or x == 'b'`
+            disp = e.comparators[0]
+            if isinstance(disp, (ast.Name, ast.Attribute)) and not (isinstance(disp, ast.Name) and (frame[1], disp.id) in st.env):
+                r_ = self.repo.resolve_expr_static(frame[0].module, disp)
+                if r_ and r_[0] == 'var' and r_[1] is not None:
+                    disp = r_[1]
+                    if isinstance(disp, ast.Call) and isinstance(disp.func, ast.Name) and disp.func.id in ('frozenset', 'set', 'tuple') and len(disp.args) == 1:
+                        disp = disp.args[0]
+            if isinstance(disp, (ast.Tuple, ast.List, ast.Set)) and 1 <= len(disp.elts) <= 4 \
+                    and all(isinstance(x, ast.Constant) and isinstance(x.value, (str, int)) and not isinstance(x.value, bool) for x in disp.elts):
+                parts = [ast.Compare(left=e.left, ops=[ast.Eq()], comparators=[x]) for x in disp.elts]
+                res = self.cond(ast.BoolOp(op=ast.Or(), values=parts) if len(parts) > 1 else parts[0], st, frame)
+                if isinstance(e.ops[0], ast.NotIn):
+                    res = [(None if v is None else (not v), s_, sg_) for v, s_, sg_ in res]
+                return res
         if isinstance(e, ast.Compare) and isinstance(e.ops[0], (ast.In, ast.NotIn)) and isinstance(e.comparators[0], (ast.Tuple, ast.List, ast.Set)) \
                 and 1 <= len(e.comparators[0].elts) <= 4 and not any(isinstance(x, ast.Starred) for x in e.comparators[0].elts) \
                 and (isinstance(e.left, ast.Constant) and e.left.value is None or any(isinstance(x, ast.Constant) and x.value is None for x in e.comparators[0].elts)):
@@ -1519,7 +1621,7 @@ class PathSim:
         if isinstance(e, ast.Constant):
             return [(bool(e.value), st, None)]
         if isinstance(e, ast.Call) and isinstance(e.func, ast.Name) and e.func.id == 'isinstance' and len(e.args) == 2 and not e.keywords \
-                and self.repo.lookup(frame[0].module, 'isinstance') is None:
+                and self.repo.lookup(frame[0].module, 'isinstance') is None and not any(isinstance(x, ast.Call) for x in ast.walk(e.args[0])):
             # isinstance(x, (A, B)) - the tuple written out or a module-level constant - is isinstance(x, A) or isinstance(x, B)
             kinds = e.args[1]
             if isinstance(kinds, (ast.Name, ast.Attribute)) and not (isinstance(kinds, ast.Name) and (frame[1], kinds.id) in st.env):
@@ -1550,6 +1652,13 @@ class PathSim:
             else:
                 out.extend(self._decide(sym, e, s, frame))
         return out
+
+    def _iter_known_from_comp(self, it, st, frame):
+        """is `it` a local that holds the value of an expanded comprehension (known element by element on this path)?"""
+        if isinstance(it, ast.Name):
+            v = st.env.get((frame[1], it.id))
+            return v is not None and hasattr(v, '_elts')
+        return False
 
     def _ev_filtered_comp(self, e, st, frame):
         """[elt for x in X if cond] as the loop it abbreviates: per iteration a decision on cond and, when it holds, an
@@ -1813,13 +1922,33 @@ class PathSim:
             if norm(r) < norm(l):
                 l, r = r, l
             # x == True / x == False on a truthy atom stay as they are
-        if isinstance(op, ast.Is) and isinstance(r, ast.Constant) and r.value is None and _never_none(l):
-            return [(neg, st, None)]        # the result of str.strip(), str(), a display ... is never None
+        if isinstance(op, ast.Is) and isinstance(r, ast.Constant) and r.value is None and (_never_none(l) or self._typed_never_none(l)):
+            return [(neg, st, None)]        # the result of str.strip(), str(), a display, a call annotated with a non-Optional class ... is never None
         sym = ast.Compare(left=l, ops=[op], comparators=[r])
         res = self._decide(sym, node, st, frame)
         if neg:
             res = [(not v, s, sig) for v, s, sig in res]
         return res
+
+    def _typed_never_none(self, sym):
+        """a call all of whose possible callees are annotated to return an instance of a repository class (not Optional, not None)"""
+        site = getattr(sym, '_site', None)
+        if not isinstance(sym, ast.Call) or site is None or getattr(site, 'prop', False):
+            return False
+        targets = self.cg.targets(site)
+        if not targets or site.kind == 'ctor':
+            return site.kind == 'ctor'
+        for g in targets:
+            ann = g.node.returns if not g.is_module_body else None
+            if ann is None:
+                return False
+            t = norm(ann)
+            if 'Optional' in t or 'None' in t or 'Any' in t or 'Union' in t or '|' in t:
+                return False
+            ty = self.repo.ann_type(g.module, ann, g.cls)
+            if not ty or ty[0] != 'inst':
+                return False
+        return True
 
     def _decide(self, sym, node, st, frame):
         text = norm(sym)
